@@ -20,6 +20,10 @@ class Unsupported(AnalysisBroken):
     pass
 
 
+class NullDeref(Unsupported):
+    """dereference of a null pointer on the interpreted path (a finding for rules that can attribute it)"""
+
+
 class Undefined:
     def __repr__(self):
         return '<undef>'
@@ -523,7 +527,21 @@ class Interp:
                 if mt.endswith('&'):
                     fc.value = Ref(self.lval(e))
                     continue
-                if e['k'] == 'CXXConstructExpr':
+                if e['k'] == 'CXXConstructExpr' and mt.endswith(']'):
+                    # member array of class type: one default construction per element
+                    try:
+                        count = int(mt[mt.rindex('[') + 1:-1])
+                    except ValueError:
+                        raise Unsupported('member array %s of unknown extent' % mt)
+                    reg = Region('%s.%s' % (obj.tag or obj.rec.split('::')[-1], init['member']), count, None, 'member')
+                    for i in range(count):
+                        c = reg.cell(i)
+                        c.name = '%s[%d]' % (init['member'], i)
+                        self.construct_into(c, e)
+                        if isinstance(c.value, Obj):
+                            c.value.tag = c.name
+                    fc.value = reg
+                elif e['k'] == 'CXXConstructExpr':
                     self.construct_into(fc, e)
                 elif e['k'] == 'InitListExpr' and not is_int_type(mt) and not is_float_type(mt) and '*' not in mt:
                     self.write(fc, self.eval(e), e)
@@ -698,6 +716,14 @@ class Interp:
             if isinstance(f, FuncRef) and f.lam is not None:
                 return self.call_lambda(f, args, node)
         if k == 'CXXOperatorCallExpr' and node.get('oop') == '=' and fdecl is None and this_cell is not None \
+                and this_cell.value is UNDEF and len(args) == 1 and name.endswith('::operator='):
+            src = self.lval(args[0]).value
+            if isinstance(src, Obj):
+                cp = self.copy_value(src)
+                cp.tag = this_cell.name
+                self.write(this_cell, cp, node)
+                return this_cell
+        if k == 'CXXOperatorCallExpr' and node.get('oop') == '=' and fdecl is None and this_cell is not None \
                 and isinstance(this_cell.value, Obj) and len(args) == 1 and name.endswith('::operator='):
             # implicitly defined copy/move assignment: member-wise
             src = self.lval(args[0]).value
@@ -774,7 +800,7 @@ class Interp:
         if not isinstance(p, Ptr):
             raise Unsupported('dereference of non-pointer %r at %s' % (p, self.loc(node)))
         if p.region is None:
-            raise Unsupported('null dereference at %s' % self.loc(node))
+            raise NullDeref('null dereference at %s' % self.loc(node))
         off = p.off
         if isinstance(off, Poly):
             if off.is_const():
